@@ -235,7 +235,8 @@ fn eq_case<Q: QueueApi>(seed: u64, idx: u64, cov: &mut EqCov) -> Result<serde_js
     prof.target = n;
     let universe: Vec<u32> = (0..prof.universe.min(16)).collect();
     let steps = 10 + rng.below(30);
-    let mut snap = src.q.snapshot();
+    // a source that is already malformed is reported under its own properties, not as a clone matter
+    let mut snap = src.post_check("build", &[], &universe, false).map_err(w)?;
     let mut twin_ops = Vec::new();
     for _ in 0..steps {
         let op = {
@@ -525,7 +526,7 @@ fn cap_inject<Q: QueueApi>(seed: u64, idx: u64, cov: &mut CapCov, journal: &mut 
     let mut rng = Rng::derive(seed, 14_000, idx);
     let n = rng.below(60);
     let rec = crate::iters::recipe(&mut rng, n, 4);
-    let mut st = crate::iters::build::<Q>(&rec);
+    let mut st = crate::iters::build_checked::<Q>(&rec).map_err(|v| (v, serde_json::json!({"mode":"cap","kind":Q::KIND,"seed":seed,"index":idx,"precheck":true})))?;
     let amount = *rng.pick(&[1usize, 10, 1000, 100_000, 1 << 22]);
     let exact = rng.chance(1, 2);
     let variant = rng.below(4);
@@ -536,6 +537,14 @@ fn cap_inject<Q: QueueApi>(seed: u64, idx: u64, cov: &mut CapCov, journal: &mut 
     }
     let kind = Q::KIND;
     let mk = |what: &str, d: String| (Viol { monitor: "M-ALLOCFAIL", op: what.to_string(), kind: kind.name(), detail: d, props: vec!["C17"] }, wit.clone());
+    let universe: Vec<u32> = (0..12).collect();
+    let cont = [Op::Push { id: 70, ord: 2 }, Op::Pop { end: End::Max }, Op::Change { id: 1, ord: 9, k: true }, Op::Remove { id: 2, k: false }, Op::Push { id: 71, ord: -1 }, Op::SortedCheck];
+    {
+        // control: the same continuation on a clone that never sees the reservation; what fails
+        // there is reported under its own properties and the case ends
+        let ctl = State { q: st.q.q_clone(), m: st.m.clone(), order_suspended: false, expected_leaks: 0, used_drain_or_clear: false, tables_broken: false };
+        crate::hist::control_run(ctl, &cont, &universe, false).map_err(|v| (v, wit.clone()))?;
+    }
     let before = st.q.snapshot();
     let cap_before = st.q.capacity();
     cov.inj_cases += 1;
@@ -600,8 +609,6 @@ fn cap_inject<Q: QueueApi>(seed: u64, idx: u64, cov: &mut CapCov, journal: &mut 
         return Err(mk(what, "the queue changed across a try_reserve call".to_string()));
     }
     let _ = cap_before;
-    let universe: Vec<u32> = (0..12).collect();
-    let cont = [Op::Push { id: 70, ord: 2 }, Op::Pop { end: End::Max }, Op::Change { id: 1, ord: 9, k: true }, Op::Remove { id: 2, k: false }, Op::Push { id: 71, ord: -1 }, Op::SortedCheck];
     for op in &cont {
         st.exec(op).map_err(|mut v| {
             v.props.push("C17");
